@@ -63,10 +63,11 @@ var nilIntercept = &intercept{}
 // Load type-checks patterns under dir with the given overlay and builds SSA.
 func Load(dir string, overlay map[string][]byte, patterns []string) (*Explorer, error) {
 	cfg := &packages.Config{
-		Mode:    packages.LoadAllSyntax,
-		Dir:     dir,
-		Overlay: overlay,
-		Env:     append(os.Environ(), "GOFLAGS=-mod=mod", "GOPROXY=off", "GOSUMDB=off", "GOTOOLCHAIN=local"),
+		Mode:       packages.LoadAllSyntax,
+		Dir:        dir,
+		Overlay:    overlay,
+		BuildFlags: []string{"-tags=verif"},
+		Env:        append(os.Environ(), "GOFLAGS=-mod=mod", "GOPROXY=off", "GOSUMDB=off", "GOTOOLCHAIN=local"),
 	}
 	pkgs, err := packages.Load(cfg, patterns...)
 	if err != nil {
